@@ -249,16 +249,23 @@ impl Scenario for WalletScenario {
                         3 => {
                             let maxs = s.scanned.iter().next_back().copied().unwrap_or(base);
                             let h = maxs + 98 + ch.below("around_pruning_depth", 5) as u32;
-                            if h <= tip && h > base {
+                            if h > tip && h - tip <= 110 && s.dirty_fork.is_none() && ch.chance("away_for_a_while", 1, 2) {
+                                // nobody scanned while the chain grew
+                                let mut r = ch.fork_rng("away.blocks");
+                                while s.chain.tip() < h {
+                                    s.gen_block(&mut r, ctx);
+                                }
+                            }
+                            if h <= s.chain.tip() && h > base {
                                 ctx.probe("tip_about_one_pruning_depth_above_max_scanned");
                                 h
                             } else {
-                                tip
+                                s.chain.tip()
                             }
                         }
                         _ => tip,
                     };
-                    if s.dirty_fork.is_none() || v == 0 || h == tip {
+                    if s.dirty_fork.is_none() || v == 0 || h == s.chain.tip() {
                         match s.update_tip(h) {
                             Ok(()) => ctx.event(format!("update_chain_tip({h})")),
                             Err(e) => return ctx.report(Violation::new("update_chain_tip_succeeds", format!("update_chain_tip({h}): {e}"))),
